@@ -152,7 +152,11 @@ def culprit(ver, ast, full, fail_key, outcome_fn=None):
         if o.fail_key() != fail_key:
             found.append(f'{i}={X.klass(X.get_at(shape, p), ver)}')
     if len(found) == 1:
-        return X.klass(ast, ver) + '/' + found[0]
+        return X.klass(ast, ver, True) + '/' + found[0]
+    if not found:
+        # no operand matters: the failure belongs to the node itself
+        detail = f'{ast[3]}{ast[4]}' if ast[0] == 'type' else ''
+        return X.klass(ast, ver, True) + '[' + detail + ']'
     return X.signature(ast, ver, shape)
 
 
@@ -297,21 +301,37 @@ def _ws_variant_discs(ver, toks, exp, gap_list, label):
     if o.kind == 'ok':
         return [], s
     fk = o.fail_key()
-    # localise: a single boundary that reproduces the failure on its own
-    for i, g in enumerate(gap_list):
+    # localise: drop gaps one at a time while the same failure persists (one pass of delta debugging)
+    cur = list(gap_list)
+    for i, g in enumerate(cur):
         if g is None:
             continue
-        single = [None] * (n + 1)
-        single[i] = g
-        o1 = parse_outcome(ver, build(single), exp)
-        if o1.fail_key() == fk:
-            left = tokclass(toks[i - 1]) if i > 0 else 'START'
-            right = tokclass(toks[i]) if i < n else 'END'
-            return [Disc(_b('C04/ws', g[1], f'{left}|{right}', fk, ver), 'same tree as with single spaces',
-                         _fail_text(o1), f'{label} string={o1.string!r}')], s
-    classes = sorted({g[1] for g in gap_list if g is not None})
-    return [Disc(_b('C04/ws', 'multi:' + '+'.join(classes), fk, ver), 'same tree as with single spaces', _fail_text(o),
-                 f'{label} string={s!r}')], s
+        trial = list(cur)
+        trial[i] = None
+        if parse_outcome(ver, build(trial), exp).fail_key() == fk:
+            cur = trial
+    rest = [i for i, g in enumerate(cur) if g is not None]
+    o1 = parse_outcome(ver, build(cur), exp)
+    cset = {cur[i][1] for i in rest}
+    at_map_colon = any((i > 0 and toks[i - 1] == ':') or (i < n and toks[i] == ':') for i in rest)
+    for special in ('comment-quote', 'comment-colon', 'comment-newline'):
+        if special in cset:
+            classes = special
+            break
+    else:
+        if at_map_colon:
+            classes = 'map-colon/' + ('comment' if any(c.startswith('comment') for c in cset) else
+                                      'cr' if any('\r' in cur[i][0] for i in rest) else '+'.join(sorted(cset)))
+        elif len(rest) >= 2 and all(c.startswith('comment') for c in cset):
+            classes = 'multi-comment'
+        else:
+            classes = '+'.join(sorted(cset)) or 'nothing'
+    i = rest[0] if rest else 0
+    left = tokclass(toks[i - 1]) if i > 0 else 'START'
+    right = tokclass(toks[i]) if i < n else 'END'
+    where = f'{left}|{right}' if len(rest) == 1 else f'{len(rest)}-gaps'
+    return [Disc(_b('C04/ws', classes, where, fk, ver), 'same tree as with single spaces', _fail_text(o1),
+                 f'{label} string={o1.string!r}')], s
 
 
 def _fail_text(o):
@@ -545,9 +565,21 @@ def _leafclass(n):
     return n[0]
 
 
+def _no_dbl(n):
+    if isinstance(n, list):
+        if n and n[0] == 'dbl':
+            return ['int', '7']
+        return [_no_dbl(x) for x in n]
+    return n
+
+
 def judge_roundtrip(case, rec=None):
     out = []
     for a in case['asts']:
+        if not case.get('dbl', True):
+            # the source of a double literal is a decimal literal (known finding): keep it out of most cases so
+            # that it does not mask the operators around it
+            a = _no_dbl(a)
         out += roundtrip_discs(case['ver'], a, rec)
     return out
 
@@ -728,7 +760,7 @@ def _strategy(job):
     if chk == 'ws':
         return case_ws(d, b)
     if chk == 'roundtrip':
-        return case_asts(d, b)
+        return st.builds(lambda c, k: dict(c, dbl=k), case_asts(d, b), st.integers(0, 9).map(lambda k: k == 0))
     if chk == 'negative':
         return case_negative()
     raise KeyError(chk)
